@@ -3,6 +3,8 @@
   key `q`, from the initial state, after `reset`, and from any reachable state.
 -/
 import Grenad.Props.C03
+import Grenad.Proofs.BinSearchBlock
+import Grenad.Proofs.TBlock
 
 namespace Grenad.Props.C02
 
@@ -180,3 +182,146 @@ example (levels : Nat) (q : Bytes) :
 example : StrictAsc C03.witnessEntries := C03.witness_fileOK.asc
 
 end Grenad.Props.C02
+
+/-! ### The in-block searches are real binary searches (`Grenad.Model.BinSearch`)
+
+`Grenad.Model.Block` defines the two searches inside a block by their specification
+(`takeWhile`): `BlockCursor.searchOffsets` for `offsets.binary_search(&cur).unwrap_or_else(|x| x)`
+in `move_on_prev`, and `BlockCursor.searchKey` for
+`offsets.binary_search_by_key(&Some(key), |off| entry_at(off).key)` in
+`move_on_key_lower_than_or_equal_to`.  `Grenad.Model.BinSearch` gives `slice::binary_search_by`
+as the loop it is — `binSearchBy`: the `size`/`left`/`right` loop with early exit of Rust
+1.52–1.81; `binSearchBy'`: the branch-free `base`/`size` loop of Rust ≥ 1.82.  On every strictly
+ascending table both loops return what the specification says, so the searches of the model are
+the searches of the crate.  Proofs: `Grenad/Proofs/BinSearchProofs.lean` (the contract of
+`binary_search_by` for both loops), `Grenad/Proofs/BinSearchBlock.lean` (instantiation). -/
+
+namespace Grenad.Props.C02
+
+open Grenad
+
+/-- **`searchOffsets` is a binary search.**  For every strictly ascending offset table and every
+    `x`, the value `move_on_prev` extracts from `offsets.binary_search(&x)` with
+    `unwrap_or_else(|x| x)` (index of the exact match, or insertion point) is the model's
+    `searchOffsets offs x` — for the classic loop and for the branch-free loop. -/
+theorem C02_searchOffsets_is_binary_search (offs : List Nat) (x : Nat)
+    (h : offs.Pairwise (· < ·)) :
+    BlockCursor.searchOffsets offs x =
+      (match binSearchBy (fun o => compare o x) offs with | .ok i => i | .error i => i) ∧
+    BlockCursor.searchOffsets offs x =
+      (match binSearchBy' (fun o => compare o x) offs with | .ok i => i | .error i => i) :=
+  BinSearch.searchOffsets_is_binSearch offs x h
+
+/-- **`searchKey` is a binary search.**  On every block whose table keys ascend strictly
+    (`None < Some _`, byte strings lexicographically) the `(found, index)` pair of the model's
+    `searchKey b key` is the reading `Ok i ↦ (true, i)`, `Err i ↦ (false, i)` of
+    `binary_search_by` with the comparison `|off| entry_at(off).key.cmp(&Some(key))` — for the
+    classic loop and for the branch-free loop. -/
+theorem C02_searchKey_is_binary_search (b : Block) (key : Bytes)
+    (h : b.offsets.Pairwise (fun o₁ o₂ =>
+      Option.lt (· < ·) ((b.entryAt o₁).map (fun (k, _, _) => k))
+        ((b.entryAt o₂).map (fun (k, _, _) => k)))) :
+    BlockCursor.searchKey b key =
+      (match binSearchBy (fun off => compareOption cmpBytes
+          ((b.entryAt off).map (fun (k, _, _) => k)) (some key)) b.offsets with
+       | .ok i => (true, i) | .error i => (false, i)) ∧
+    BlockCursor.searchKey b key =
+      (match binSearchBy' (fun off => compareOption cmpBytes
+          ((b.entryAt off).map (fun (k, _, _) => k)) (some key)) b.offsets with
+       | .ok i => (true, i) | .error i => (false, i)) :=
+  BinSearch.searchKey_is_binSearch b key h
+
+/-- Both hypotheses hold of every block built by the block writer (`BlockOf`, T-block): its offset
+    table and the keys the table designates ascend strictly. -/
+theorem C02_built_tables_ascend {iv : Nat} {es : List Entry} {b : Block} (hb : BlockOf iv es b) :
+    b.offsets.Pairwise (· < ·) ∧
+    b.offsets.Pairwise (fun o₁ o₂ =>
+      Option.lt (· < ·) ((b.entryAt o₁).map (fun (k, _, _) => k))
+        ((b.entryAt o₂).map (fun (k, _, _) => k))) :=
+  ⟨BinSearch.offsets_pairwise_of_blockOf hb, BinSearch.tableKeysAsc_of_blockOf hb⟩
+
+/-- On writer-built blocks, for every cursor position and every key: the model's `prev` and `le`
+    are `move_on_prev` and `move_on_key_lower_than_or_equal_to` with the search performed by the
+    standard library's loop (`BinSearch.prevBS`, `BinSearch.leBS`; either loop). -/
+theorem C02_prev_le_use_binary_search {iv : Nat} {es : List Entry} {b : Block}
+    (hb : BlockOf iv es b) (o : Option Nat) (key : Bytes) :
+    (BlockCursor.mk b o).prev = BinSearch.prevBS binSearchBy ⟨b, o⟩ ∧
+    (BlockCursor.mk b o).prev = BinSearch.prevBS binSearchBy' ⟨b, o⟩ ∧
+    (BlockCursor.mk b o).le key = BinSearch.leBS binSearchBy ⟨b, o⟩ key ∧
+    (BlockCursor.mk b o).le key = BinSearch.leBS binSearchBy' ⟨b, o⟩ key := by
+  obtain ⟨h1, h2⟩ := BinSearch.prev_eq_prevBS ⟨b, o⟩ (BinSearch.offsets_pairwise_of_blockOf hb)
+  obtain ⟨h3, h4⟩ := BinSearch.le_eq_leBS ⟨b, o⟩ key (BinSearch.tableKeysAsc_of_blockOf hb)
+  exact ⟨h1, h2, h3, h4⟩
+
+/-! #### The contract of `binary_search_by` itself (any sorted list, duplicates allowed) -/
+
+/-- On a list sorted w.r.t. `cmp` — `Less` on `[0, k)`, `Equal` on `[k, m)`, `Greater` after —
+    both loops return `Err(k)` when nothing compares `Equal`, and `Ok(i)` with `i` in the `Equal`
+    region otherwise. -/
+theorem C02_binary_search_contract {α : Type} {cmp : α → Ordering} {l : List α} {k m : Nat}
+    (h : BinSearch.SortedBy cmp l k m) :
+    (k = m → binSearchBy cmp l = .error k ∧ binSearchBy' cmp l = .error k) ∧
+    (k < m → (∃ i, binSearchBy cmp l = .ok i ∧ k ≤ i ∧ i < m) ∧
+             (∃ i, binSearchBy' cmp l = .ok i ∧ k ≤ i ∧ i < m)) :=
+  ⟨fun e => ⟨(BinSearch.binSearchBy_spec h).1 e, (BinSearch.binSearchBy'_spec h).1 e⟩,
+   fun e => ⟨(BinSearch.binSearchBy_spec h).2 e, (BinSearch.binSearchBy'_spec h).2 e⟩⟩
+
+/-! #### Concrete instances -/
+
+example : [0, 3, 7, 12].Pairwise (· < ·) := by decide
+
+/-- exact match, insertion point in the middle, before the first, after the last -/
+example : (foundAt (binSearchBy (fun o => compare o 7) [0, 3, 7, 12]),
+           foundAt (binSearchBy (fun o => compare o 8) [0, 3, 7, 12]),
+           foundAt (binSearchBy (fun o => compare o 0) [0, 3, 7, 12]),
+           foundAt (binSearchBy (fun o => compare o 99) [0, 3, 7, 12])) =
+    ((true, 2), (false, 3), (true, 0), (false, 4)) := by decide
+
+example : (foundAt (binSearchBy' (fun o => compare o 7) [0, 3, 7, 12]),
+           foundAt (binSearchBy' (fun o => compare o 8) [0, 3, 7, 12]),
+           foundAt (binSearchBy' (fun o => compare o 0) [0, 3, 7, 12]),
+           foundAt (binSearchBy' (fun o => compare o 99) [0, 3, 7, 12])) =
+    ((true, 2), (false, 3), (true, 0), (false, 4)) := by decide
+
+example : BlockCursor.searchOffsets [0, 3, 7, 12] 8 = 3 := by decide
+
+/-- with duplicates the two loops may pick different matches — both inside the `Equal` region, as
+    the contract allows (the tables of a block have no duplicates) -/
+example : (foundAt (binSearchBy (fun o => compare o 5) [1, 5, 5, 5, 9]),
+           foundAt (binSearchBy' (fun o => compare o 5) [1, 5, 5, 5, 9])) = ((true, 2), (true, 3)) := by
+  decide
+
+example : BinSearch.SortedBy (fun o => compare o 5) [1, 5, 5, 5, 9] 1 4 := by
+  refine ⟨by decide, by decide, ?_, ?_, ?_⟩ <;> intro i hi
+  · intro h; have : i = 0 := by omega
+    subst this; rfl
+  · intro h1 h2
+    have : i = 1 ∨ i = 2 ∨ i = 3 := by omega
+    rcases this with rfl | rfl | rfl <;> rfl
+  · intro h
+    have : i = 4 := by simp at hi; omega
+    subst this; rfl
+
+/-- three entries, table interval 2: the block the writer builds satisfies `BlockOf`, hence the
+    hypotheses of the two theorems -/
+private def bsEs : List Entry := [([1], [10]), ([1, 2], []), ([3], [7, 8, 9])]
+
+example : ∃ b, BlockOf 2 bsEs b ∧
+    (∀ key, BlockCursor.searchKey b key =
+      (match binSearchBy' (fun off => compareOption cmpBytes
+          ((b.entryAt off).map (fun (k, _, _) => k)) (some key)) b.offsets with
+       | .ok i => (true, i) | .error i => (false, i))) := by
+  obtain ⟨w, b, _, _, _, _, _, hb⟩ := tblock_roundtrip (iv := 2) (es := bsEs) (by decide)
+    (by simp [StrictAsc, bsEs]; decide) (by simp [bsEs]) (by decide)
+  exact ⟨b, hb, fun key => (C02_searchKey_is_binary_search b key (C02_built_tables_ascend hb).2).2⟩
+
+end Grenad.Props.C02
+
+section AuditBinSearch
+open Grenad.Props.C02
+#print axioms C02_searchOffsets_is_binary_search
+#print axioms C02_searchKey_is_binary_search
+#print axioms C02_built_tables_ascend
+#print axioms C02_prev_le_use_binary_search
+#print axioms C02_binary_search_contract
+end AuditBinSearch
